@@ -25,6 +25,8 @@ FMETAS = [{'path': 'f'}, {'path': 'g', 'revision': {'old': 'a', 'new': 'b'}},
           None, {}, META_BY_NAME['degenerate-pairs'],
           META_BY_NAME['semantic']]
 METAS.append(META_BY_NAME['degenerate-pairs'])
+METAS.append(META_BY_NAME['spellings'])
+FMETAS.append(META_BY_NAME['spellings'])
 DIFFS = [None, b'a\n', b'a', SAMPLE_DIFF, b'a\r\nb\r\n', b'a\r\nb\n',
          b'\x00\xff\n', b'#..file:\n', b'', 'x\n'.encode('utf-16'),
          VENDOR_DIFF]
